@@ -377,7 +377,7 @@ fn handler_part(ctx: &Ctx, rep: &mut Report) {
             chunk,
             pipe: 1 << 20,
         };
-        let cfg = SimCfg { torrent, peers: vec![spec], tracker: vec![], failpoints: None, max_virtual_ms: 400_000, stop_on_extract: false, linger_ms: 0, disk_on: disk_never, seed, tracker_fn: None, driver: Some(Box::new(|log, _ctl| Box::pin(async move {
+        let cfg = SimCfg { torrent, peers: vec![spec], tracker: vec![], failpoints: None, max_virtual_ms: 400_000, stop_on_extract: false, linger_ms: 0, disk_on: disk_never, seed, pre: None, tracker_fn: None, driver: Some(Box::new(|log, _ctl| Box::pin(async move {
             // end the scenario once the manager saw a KillReq
             loop {
                 tokio::time::sleep(Duration::from_millis(500)).await;
